@@ -221,15 +221,51 @@ Qed.
 Definition settled (w : world) (f : nat) : Prop :=
   exists k, current_impl w f = Some k /\ nonwrap k = true.
 
+(* in the course of one call the hook of a lazy wrapper runs at most once per function, and never
+   for a function that was already settled *)
+Definition wrap_once (w w' : world) : Prop :=
+  forall f g, get_fn w f = Some g -> exists g', get_fn w' f = Some g'
+    /\ (settled w f -> wrap_entries g' = wrap_entries g)
+    /\ (wrap_entries g' = wrap_entries g \/ (wrap_entries g' = S (wrap_entries g) /\ settled w' f)).
+
 Definition cext (w w' : world) : Prop :=
   ext w w' /\ (forall f, settled w f -> settled w' f)
-  /\ (forall f, get_fn w f = None -> get_fn w' f = None).
+  /\ (forall f, get_fn w f = None -> get_fn w' f = None)
+  /\ wrap_once w w'.
+
+Lemma wrap_once_refl w : wrap_once w w.
+Proof. intros f g Hg. exists g. split; [exact Hg|]. split; [auto|left; reflexivity]. Qed.
 
 Lemma cext_refl w : cext w w.
-Proof. split; [apply ext_refl|auto]. Qed.
+Proof. split; [apply ext_refl|]. split; [auto|]. split; [auto|apply wrap_once_refl]. Qed.
 
 Lemma cext_trans a b c : cext a b -> cext b c -> cext a c.
-Proof. intros [A1 [A2 A3]] [B1 [B2 B3]]. split; [eapply ext_trans; eauto|auto]. Qed.
+Proof.
+  intros [A1 [A2 [A3 A4]]] [B1 [B2 [B3 B4]]]. split; [eapply ext_trans; eauto|]. split; [auto|].
+  split; [auto|].
+  intros f g Hg. destruct (A4 _ _ Hg) as [g1 [Hg1 [Ha Hb]]]. destruct (B4 _ _ Hg1) as [g2 [Hg2 [Hc Hd]]].
+  exists g2. split; [exact Hg2|]. split.
+  - intros Hs. rewrite (Hc (A2 _ Hs)). apply Ha. exact Hs.
+  - destruct Hb as [Hb|[Hb Hs1]].
+    + destruct Hd as [Hd|[Hd Hs2]]; [left; congruence|right; split; [congruence|exact Hs2]].
+    + right. split; [rewrite (Hc Hs1); exact Hb|apply B2; exact Hs1].
+Qed.
+
+(* updating one function: the others keep their record *)
+Lemma wrap_once_put w w' f g g1 :
+  get_fn w f = Some g -> get_fn w' f = Some g1 ->
+  (forall f', f <> f' -> get_fn w' f' = get_fn w f') ->
+  (settled w f -> wrap_entries g1 = wrap_entries g) ->
+  (wrap_entries g1 = wrap_entries g \/ (wrap_entries g1 = S (wrap_entries g) /\ settled w' f)) ->
+  wrap_once w w'.
+Proof.
+  intros Hg Hg1 Hoth Ha Hb f' g' Hg'. destruct (Nat.eq_dec f f') as [<-|Hne].
+  - rewrite Hg in Hg'. inversion Hg'; subst g'. exists g1. split; [exact Hg1|]. split; assumption.
+  - exists g'. split; [rewrite Hoth by exact Hne; exact Hg'|]. split; [auto|left; reflexivity].
+Qed.
+
+Lemma settled_impl w f k : current_impl w f = Some k -> settled w f -> nonwrap k = true.
+Proof. intros Hk [k' [Hk' Hn]]. rewrite Hk in Hk'. inversion Hk'; subst. exact Hn. Qed.
 
 Lemma none_put w f g0 g f' :
   get_fn w f = Some g0 -> get_fn w f' = None -> get_fn (put_fn w f g) f' = None.
@@ -267,6 +303,7 @@ Lemma gen_full_ok w f g0 g code w' :
   gen_full w f g code = Ok w' ->
   Inv w' /\ ext w w' /\ (forall f', f <> f' -> settled w f' -> settled w' f')
   /\ (forall f', get_fn w f' = None -> get_fn w' f' = None)
+  /\ (forall f', f <> f' -> get_fn w' f' = get_fn w f')
   /\ exists g', get_fn w' f = Some g' /\ linked g' = linked g /\ wrap_entries g' = wrap_entries g
        /\ current_impl w' f = Some (KCode f).
 Proof.
@@ -284,11 +321,12 @@ Proof.
       - exists m. split; [reflexivity|]. split; [exact Hrange|].
         right. split; [exact Hmu|]. exists (KCode f). repeat split; auto; try discriminate.
       - destruct Hok as [A B]. constructor; [exact A|exact B]. }
-    split; [eapply Inv_put; eauto|]. split; [|split; [|split]].
+    split; [eapply Inv_put; eauto|]. split; [|split; [|split; [|split]]].
     + eapply ext_put; [exact H0|]. destruct Hext as [E1 [E2 [E3 E4]]].
       unfold fn_ext; cbn. repeat split; auto.
     + intros f' Hne Hs. eapply settled_other; eauto.
     + intros f' Hn. eapply none_put; eauto.
+    + intros f' Hne. apply get_put_other. exact Hne.
     + exists (redirect g m). split; [eapply get_put_same; eauto|]. repeat split.
       erewrite current_impl_of_tgt; [| eapply get_put_same; eauto | reflexivity | exact Hrange].
       change (undef_addr (put_fn w f (redirect g m))) with (undef_addr w).
@@ -307,12 +345,13 @@ Proof.
         + intros a Ha. cbn in Ha. inversion Ha; subst a. rewrite lookup_cons_same. repeat split; auto.
         + right. split; [discriminate|]. cbn.
           destruct (ok_gens _ _ _ _ Hok) as [[_ Hg]|[Hn _]]; [rewrite Hg; reflexivity|congruence]. }
-    split; [eapply Inv_publish_put; eauto; discriminate|]. split; [|split; [|split]].
+    split; [eapply Inv_publish_put; eauto; discriminate|]. split; [|split; [|split; [|split]]].
     + eapply ext_publish_put; [exact H0|exact Hcl|]. destruct Hext as [E1 [E2 [E3 E4]]].
       unfold fn_ext; cbn. repeat split; auto; try lia;
         try (intros a Ha; apply E2 in Ha; congruence).
     + intros f' Hne Hs. eapply settled_other_publish; eauto.
     + intros f' Hn. eapply (none_put (publish w code (KCode f))); eauto.
+    + intros f' Hne. rewrite get_put_other by exact Hne. apply get_publish.
     + exists g1. split.
       * eapply get_put_same. rewrite get_publish. eassumption.
       * repeat split.
@@ -332,7 +371,7 @@ Definition all_linked (w : world) : Prop := forall f g, get_fn w f = Some g -> l
 
 Lemma all_linked_cext w w' : cext w w' -> all_linked w -> all_linked w'.
 Proof.
-  intros [[_ [_ [_ He]]] [_ Hn]] Ha f g' Hg'.
+  intros [[_ [_ [_ He]]] [_ [Hn _]]] Ha f g' Hg'.
   destruct (get_fn w f) as [g|] eqn:Eg.
   - destruct (He _ _ Eg) as [g2 [H2 [_ [_ [_ Hl]]]]]. rewrite H2 in Hg'. inversion Hg'; subst.
     apply Hl. eapply Ha; eauto.
@@ -431,7 +470,7 @@ Section CallProofs.
             exists (KShim f). repeat split; auto; discriminate.
           - destruct (ok_mcok _ _ _ _ Hok) as [A B]. constructor; [exact A|exact B]. }
         apply (enter_ok w (put_fn w f g1) f); [eapply Inv_put; eauto| | |apply Hbody; eapply Inv_put; eauto].
-        * split; [eapply ext_put; eauto; unfold fn_ext; cbn; repeat split; auto|]. split.
+        * split; [eapply ext_put; eauto; unfold fn_ext; cbn; repeat split; auto|]. split; [|split].
           -- intros f' Hs. destruct (Nat.eq_dec f f') as [<-|Hnf].
              ++ exists (KShim f). split; [|reflexivity].
                 erewrite current_impl_of_tgt; [|eapply get_put_same; eauto|exact Hb|exact Ht].
@@ -439,6 +478,8 @@ Section CallProofs.
                 destruct (Z.eqb_spec t (undef_addr w)); [contradiction|exact Hl].
              ++ eapply settled_other; eauto.
           -- intros f' Hn. eapply none_put; eauto.
+          -- eapply (wrap_once_put w (put_fn w f g1) f g g1); [exact Eg|eapply get_put_same; eauto| |auto|left; reflexivity].
+             intros f' Hne'. apply get_put_other. exact Hne'.
         * exists (KShim f). split; [|reflexivity].
           erewrite current_impl_of_tgt; [|eapply get_put_same; eauto|exact Hb|exact Ht].
           change (undef_addr (put_fn w f g1)) with (undef_addr w).
@@ -450,7 +491,7 @@ Section CallProofs.
             exists (KShim f). repeat split; auto; discriminate.
           - destruct (ok_mcok _ _ _ _ Hok) as [A B]. constructor; [exact A|exact B]. }
         apply (enter_ok w (put_fn w f g1) f); [eapply Inv_put; eauto| | |apply Hbody; eapply Inv_put; eauto].
-        * split; [eapply ext_put; eauto; unfold fn_ext; cbn; repeat split; auto|]. split.
+        * split; [eapply ext_put; eauto; unfold fn_ext; cbn; repeat split; auto|]. split; [|split].
           -- intros f' Hs. destruct (Nat.eq_dec f f') as [<-|Hnf].
              ++ exists (KShim f). split; [|reflexivity].
                 erewrite current_impl_of_tgt; [|eapply get_put_same; eauto|exact Hb|exact Ht].
@@ -458,6 +499,8 @@ Section CallProofs.
                 destruct (Z.eqb_spec t (undef_addr w)); [contradiction|exact Hl].
              ++ eapply settled_other; eauto.
           -- intros f' Hn. eapply none_put; eauto.
+          -- eapply (wrap_once_put w (put_fn w f g1) f g g1); [exact Eg|eapply get_put_same; eauto| |auto|left; reflexivity].
+             intros f' Hne'. apply get_put_other. exact Hne'.
         * exists (KShim f). split; [|reflexivity].
           erewrite current_impl_of_tgt; [|eapply get_put_same; eauto|exact Hb|exact Ht].
           change (undef_addr (put_fn w f g1)) with (undef_addr w).
@@ -473,11 +516,14 @@ Section CallProofs.
                 (bind (gen_full w f g0 code) (fun w1 => body (call callees fuel) (callees f) w1 orc1))).
       { intros code orc1. destruct (gen_full w f g0 code) as [w1|s] eqn:Egen; cbn [bind].
         - destruct (gen_full_ok _ _ _ _ _ _ HI Eg Hmc0 Hext0 Egen)
-            as [HI1 [Hext1 [Hset1 [Hnone1 [g' [Hg' [_ [_ Hcur1]]]]]]]].
+            as [HI1 [Hext1 [Hset1 [Hnone1 [Hoth1 [g' [Hg' [_ [Hwe Hcur1]]]]]]]]].
           assert (Hs1 : settled w1 f) by (exists (KCode f); split; [exact Hcur1|reflexivity]).
           eapply enter_ok; [exact HI1| |exact Hs1|apply Hbody; exact HI1].
-          split; [exact Hext1|]. split; [|exact Hnone1].
-          intros f' Hs. destruct (Nat.eq_dec f f') as [<-|Hnf]; [exact Hs1|auto].
+          split; [exact Hext1|]. split; [|split; [exact Hnone1|]].
+          + intros f' Hs. destruct (Nat.eq_dec f f') as [<-|Hnf]; [exact Hs1|auto].
+          + eapply (wrap_once_put w w1 f g g'); [exact Eg|exact Hg'|exact Hoth1| |].
+            * intros Hs. pose proof (settled_impl _ _ _ Hcur Hs) as Hn. discriminate.
+            * right. split; [rewrite Hwe; reflexivity|exact Hs1].
         - cbn. unfold gen_full in Egen.
           destruct (data g0); try (inversion Egen; intros _; discriminate).
           destruct (mcode g0); [destruct (calladdr g0)|destruct (fresh w code)];
@@ -513,10 +559,15 @@ Section CallProofs.
       eapply enter_ok; [exact HI1| |exact Hs1|apply Hbody; exact HI1].
       split; [eapply ext_publish_put; eauto; unfold fn_ext; cbn; repeat split; auto;
               intros a Ha; congruence|].
-      split.
+      split; [|split].
       + intros f' Hs. destruct (Nat.eq_dec f f') as [<-|Hnf]; [exact Hs1|].
         eapply settled_other_publish; eauto.
       + intros f' Hn. eapply (none_put (publish w bb (KBB f))); eauto.
+      + eapply (wrap_once_put w (put_fn (publish w bb (KBB f)) f g1) f g g1);
+          [exact Eg|eapply get_put_same; rewrite get_publish; eassumption| | |].
+        * intros f' Hne'. rewrite get_put_other by exact Hne'. apply get_publish.
+        * intros Hs. pose proof (settled_impl _ _ _ Hcur Hs) as Hn. discriminate.
+        * right. split; [reflexivity|exact Hs1].
     - (* generated code *)
       eapply enter_ok; [exact HI|apply cext_refl| |apply Hbody; exact HI].
       exists (KCode f). split; [exact Hcur|reflexivity].
@@ -694,5 +745,14 @@ Section StepProofs.
     destruct (call callees (S (length (fns w))) w f orc) as [[w1 o1]|s]; cbn [bind fst] in Hs;
       try discriminate.
     inversion Hs; subst w'. destruct Hc as [_ [[_ [Hset _]] Hsf]]. split; assumption.
+  Qed.
+  Lemma call_wrap_once w f orc w' :
+    Inv w -> step callees w (OCall f orc) = Ok w' -> wrap_once w w'.
+  Proof.
+    intros HI Hs. cbn [step] in Hs.
+    pose proof (call_ok callees (S (length (fns w))) w f orc HI) as Hc.
+    destruct (call callees (S (length (fns w))) w f orc) as [[w1 o1]|s]; cbn [bind fst] in Hs;
+      try discriminate.
+    inversion Hs; subst w'. destruct Hc as [_ [[_ [_ [_ Hw]]] _]]. exact Hw.
   Qed.
 End StepProofs.
